@@ -12,16 +12,16 @@ namespace c13 {
 namespace {
 
 enum Op { ASSIGN_OTHER, ASSIGN_SELF, ASSIGN_EMPTY, ASSIGN_AB, ASSIGN_AABA, APPEND_OTHER, APPEND_SELF, APPEND_A, APPEND_BA,
-          REPL_CHAR, REPL_A_NONE, REPL_AA_B, REPL_AB_AAB, REPL_OTHER_B, REPL_B_OTHER, SUB_1, SUB_0_2, SUB_2_1, PAD, SPLIT_A,
+          REPL_CHAR, CUT_A, CUT_B, REPL_A_NONE, REPL_AA_B, REPL_AB_AAB, REPL_OTHER_B, REPL_B_OTHER, SUB_1, SUB_0_2, SUB_2_1, PAD, SPLIT_A,
           COL_0, COL_1, COL_END, PLUS, NOPS };
 const char* OPNAME[NOPS] = {"t=o", "t=t", "t=\"\"", "t=\"ab\"", "t=\"aaba\"", "t+=o", "t+=t", "t+=\"a\"", "t+=\"ba\"",
-          "t.replace('a','b')", "t.replace(\"a\",\"\")", "t.replace(\"aa\",\"b\")", "t.replace(\"ab\",\"aab\")", "t.replace(o,\"b\")", "t.replace(\"b\",o)",
+          "t.replace('a','b')", "t.replace('a',NUL)", "t.replace('b',NUL)", "t.replace(\"a\",\"\")", "t.replace(\"aa\",\"b\")", "t.replace(\"ab\",\"aab\")", "t.replace(o,\"b\")", "t.replace(\"b\",o)",
           "t=t.subString(1)", "t=t.subString(0,2)", "t=t.subString(2,1)", "pad(t,o,' ')", "t.split(\"a\",col)",
           "t=col[0]", "t=col[1]", "t=col[size]", "t=t+o"};
 
 // operation class: used for crash attribution and signatures (the concrete operands are in the detail)
 const char* OPCLASS[NOPS] = {"assign", "assign", "assign", "assign", "assign", "operator+=", "operator+=", "operator+=", "operator+=",
-          "replace(char,char)", "replace(to,with)", "replace(to,with)", "replace(to,with)", "replace(to,with)", "replace(to,with)",
+          "replace(char,char)", "replace(char,NUL)", "replace(char,NUL)", "replace(to,with)", "replace(to,with)", "replace(to,with)", "replace(to,with)", "replace(to,with)",
           "subString", "subString", "subString", "padStringsToSameLength", "split", "collection[]", "collection[]", "collection[]", "operator+"};
 
 std::vector<str> split_a(const str& s) {
@@ -96,6 +96,9 @@ struct Seq {
                 case APPEND_A: nt = mt + "a"; break;
                 case APPEND_BA: nt = mt + "ba"; break;
                 case REPL_CHAR: for (auto& x : nt) if (x == 'a') x = 'b'; break;
+                // in-place shortening: the text ends at the first replaced byte (C-string meaning); the buffer keeps its size
+                case CUT_A: nt = mt.substr(0, mt.find('a')); break;
+                case CUT_B: nt = mt.substr(0, mt.find('b')); break;
                 case REPL_A_NONE: nt = ref_replace(mt, "a", ""); break;
                 case REPL_AA_B: nt = ref_replace(mt, "aa", "b"); break;
                 case REPL_AB_AAB: nt = ref_replace(mt, "ab", "aab"); break;
@@ -116,8 +119,8 @@ struct Seq {
                 // ---- the real operation
                 unsigned long long tkey = 0;
                 if (use_ct) {
-                    std::string k = std::to_string(op); k += '\0'; k += val(t); k += '\0'; k += std::to_string(t.bufferSize_);
-                    if (reads_other(op)) { k += '\0'; k += val(o); k += '\0'; k += std::to_string(o.bufferSize_); }
+                    std::string k = std::to_string(op); k += '\0'; k.append(t.buffer_, t.bufferSize_); k += '\0'; k += std::to_string(t.bufferSize_);
+                    if (reads_other(op)) { k += '\0'; k.append(o.buffer_, o.bufferSize_); k += '\0'; k += std::to_string(o.bufferSize_); }
                     tkey = vf::hash_str(k) | 1;
                     // (never inside the replayed prefix: those transitions returned when the prefix was first executed)
                     if (ch.in_new_territory() && g_ct->has(tkey)) { vf::count("crash_cuts"); break; }
@@ -137,6 +140,8 @@ struct Seq {
                 case APPEND_A: t += "a"; break;
                 case APPEND_BA: t += "ba"; break;
                 case REPL_CHAR: t.replace('a', 'b'); break;
+                case CUT_A: t.replace('a', '\0'); break;
+                case CUT_B: t.replace('b', '\0'); break;
                 case REPL_A_NONE: t.replace("a", ""); break;
                 case REPL_AA_B: t.replace("aa", "b"); break;
                 case REPL_AB_AAB: t.replace("ab", "aab"); break;
@@ -158,6 +163,7 @@ struct Seq {
                 // ---- compare
                 std::string sigbase = std::string("seq/") + OPCLASS[op];
                 if (val(t) != nt || val(o) != no) bad = true;
+                if (t.size() != nt.size() || o.size() != no.size() || t.isEmpty() != nt.empty() || (t == o) != (nt == no) || !(t == SimpleString(t))) bad = true;
                 if (bad)
                     vf::fail(sigbase + "/wrong-value", trace + ": expected t=" + q(nt) + " o=" + q(no) + " got t=" + q(val(t)) + " o=" + q(val(o)));
                 if (col_free) {
@@ -180,9 +186,10 @@ struct Seq {
                 if (prune) {
                     // canonical key = everything later operations can observe: contents and recorded sizes
                     std::string key;
-                    for (int k = 0; k < 2; k++) { key += val(obj[k]); key += '\0'; key += std::to_string(obj[k].bufferSize_); key += '\0'; }
+                    // (whole buffers, also the bytes behind the terminator of a string that was shortened in place)
+                    for (int k = 0; k < 2; k++) { key.append(obj[k].buffer_, obj[k].bufferSize_); key += '\0'; key += std::to_string(obj[k].bufferSize_); key += '\0'; }
                     key += std::to_string(col.size());
-                    for (size_t i = 0; i < col.size(); i++) { key += '\0'; key += val(col[i]); key += '\0'; key += std::to_string(col[i].bufferSize_); }
+                    for (size_t i = 0; i < col.size(); i++) { key += '\0'; key.append(col[i].buffer_, col[i].bufferSize_); key += '\0'; key += std::to_string(col[i].bufferSize_); }
                     key += '\0'; key += val(col.empty_);
                     if (ch.prune(vf::hash_str(key), depth - step - 1)) break;
                 }
@@ -214,7 +221,7 @@ void sections_seq(bool T) {
     }
     {
         Seq s{T ? 6 : 5, true, 6};
-        vf::info("seqdeep.bound", vf::fmt("same operations, histories up to depth %d, values longer than %zu bytes are outside (skipped step); pruned on the canonical state = contents and recorded buffer sizes of x, y, every piece of the collection and its out-of-range string (nothing else is observable by later operations: the string allocator keeps no state between operations)", s.depth, s.maxlen));
+        vf::info("seqdeep.bound", vf::fmt("same operations, histories up to depth %d, values longer than %zu bytes are outside (skipped step); pruned on the canonical state = complete buffer contents (also behind the terminator) and recorded buffer sizes of x, y, every piece of the collection and its out-of-range string (nothing else is observable by later operations: the string allocator keeps no state between operations)", s.depth, s.maxlen));
         if (g_ct) memset((void*)g_ct, 0, sizeof *g_ct);
         vf::section_dfs("seqdeep", 2, true, [&](vf::Chooser& ch) { s.run(ch); });
         vf::require_outcomes("seqdeep", 12);
